@@ -3,6 +3,7 @@ package main
 // C10: H264 payloader / depacketizer.
 
 import (
+	"bytes"
 	"encoding/json"
 
 	"github.com/pion/rtp/codecs"
@@ -45,6 +46,26 @@ func (r *h264Rx) feed(p []byte) Ev {
 	return Ev{"res": res, "annexb_res": outcome("ok", e1), "avc_res": outcome("ok", e2), "annexb": ints(o1), "avc": ints(o2), "head": head}
 }
 
+// annexbStream lays the calls' units out in one buffer (start codes as given) followed by a closing
+// 4-byte start code and a unit header; bounds[k]..bounds[k+1] is call k's window.
+func annexbStream(calls []c10Call) ([]byte, []int) {
+	stream := []byte{}
+	bounds := []int{0}
+	for _, call := range calls {
+		for i, u := range call.Units {
+			if call.Scs[i] == 4 {
+				stream = append(stream, 0, 0, 0, 1)
+			} else {
+				stream = append(stream, 0, 0, 1)
+			}
+			stream = append(stream, bytesOf(u)...)
+		}
+		bounds = append(bounds, len(stream))
+	}
+	stream = append(stream, 0, 0, 0, 1, 0x65, 0x88)
+	return stream, bounds
+}
+
 func runC10(raw json.RawMessage, w *Writer) {
 	var c c10Case
 	if err := json.Unmarshal(raw, &c); err != nil {
@@ -61,22 +82,19 @@ func runC10(raw json.RawMessage, w *Writer) {
 		return
 	}
 	p := &codecs.H264Payloader{DisableStapA: !c.StapA}
+	// an encoder-style caller: all access units of the history lie one after the other in ONE stream buffer and every
+	// call gets its window of it (what follows a window - the next unit, or a closing start code - is the caller's data)
+	stream, bounds := annexbStream(c.Calls)
+	pristine := cloneBytes(stream)
 	for k, call := range c.Calls {
-		input := []byte{}
-		for i, u := range call.Units {
-			if call.Scs[i] == 4 {
-				input = append(input, 0, 0, 0, 1)
-			} else {
-				input = append(input, 0, 0, 1)
-			}
-			input = append(input, bytesOf(u)...)
-		}
+		input := pristine[bounds[k]:bounds[k+1]]
 		var frags [][]byte
-		r, _ := guard(func() { frags = p.Payload(uint16(c.Mtu), cloneBytes(input)) })
+		r, _ := guard(func() { frags = p.Payload(uint16(c.Mtu), stream[bounds[k]:bounds[k+1]]) })
+		intact := bytes.Equal(stream, pristine) // the call wrote neither into its window nor into what lies behind it
 		deps := []Ev{}
 		for _, f := range frags {
 			deps = append(deps, rx.feed(f))
 		}
-		w.Emit(Ev{"ev": "payload", "k": k, "units": call.Units, "scs": call.Scs, "input": ints(input), "res": r, "frags": intss(frags), "deps": deps})
+		w.Emit(Ev{"ev": "payload", "k": k, "units": call.Units, "scs": call.Scs, "input": ints(input), "stream_intact": intact, "res": r, "frags": intss(frags), "deps": deps})
 	}
 }
